@@ -47,6 +47,21 @@ elab "#audit_ns " ns:ident : command => do
 """
 
 
+def _raised_in_repo(ex):
+    """file:line of the innermost frame if the exception was raised by code of the tree under test, else None"""
+    tb = ex.__traceback__
+    last = None
+    while tb is not None:
+        last = tb
+        tb = tb.tb_next
+    if last is None:
+        return None
+    fn = os.path.abspath(last.tb_frame.f_code.co_filename)
+    if fn.startswith(os.path.abspath(REPO) + os.sep):
+        return "%s:%d" % (os.path.relpath(fn, REPO), last.tb_lineno)
+    return None
+
+
 class Corr:
     """result of a correspondence run"""
     def __init__(self):
@@ -279,7 +294,17 @@ def run_check(prop, tier, seed):
         if p.returncode != 0:
             broken.append("leanchecker rejected %s: %s" % (prop.LEAN_MODULE, p.stdout.decode()[-300:]))
     # 3 ---------------------------------------------------------------- correspondence
-    corr = prop.correspondence(ctx)
+    try:
+        corr = prop.correspondence(ctx)
+    except Exception as ex:  # noqa
+        where = _raised_in_repo(ex)
+        if where is None:
+            raise               # the harness itself failed: infrastructure, exit 2
+        # the implementation raised something no path of the unchanged code raises and the harness had no answer
+        # for: the correspondence no longer checks; go on to the failing-input search
+        corr = Corr()
+        corr.error = "the implementation raised %s: %s at %s while the correspondence was running" % (
+            type(ex).__name__, str(ex)[:200], where)
     if corr.error:
         broken.append("correspondence could not run: " + corr.error)
     ctx.log("correspondence: %d evaluations, %d distinct non-trivial, %d disagreements"
@@ -295,7 +320,15 @@ def run_check(prop, tier, seed):
     if broken:
         ctx.log("broken: " + " | ".join(broken)[:1000])
         # the direct oracle ignores failures whose signature is a listed known finding
-        found = prop.oracle_search(ctx, corr, broken)
+        try:
+            found = prop.oracle_search(ctx, corr, broken)
+        except Exception as ex:  # noqa
+            where = _raised_in_repo(ex)
+            if where is None:
+                raise
+            broken.append("failing-input search stopped: the implementation raised %s: %s at %s" % (
+                type(ex).__name__, str(ex)[:200], where))
+            found = None
         replay_path = os.path.join("replays", "%s-%d.json" % (prop.ID, seed))
         if found is not None:
             case, observed, signature = found
